@@ -24,7 +24,7 @@ from analysis import facts as F
 from analysis.cg import CallGraph
 from analysis.interproc import Interproc
 from analysis.absint import Analyzer
-from analysis.expr import ExprBuilder, show
+from analysis.expr import ExprBuilder, show, see_through_try
 
 WRITER = "sauce_mod::<impl buffers::Buffer>::write_sauce_info"
 READER = "sauce_mod::SauceData::extract"
@@ -207,6 +207,38 @@ def run(chk):
         h = writer_loop[0]
         nxt = [t for bi, t in wb.calls() if bi in loops[h] and (t["callee"].get("resolved") or "").endswith("Iterator>::next")]
         it_ok = False
+        coll_local = [None]
+
+        def coll_base(e):
+            """what is iterated, below `&`, `*`, `.iter()` and `Deref::deref`"""
+            for _ in range(8):
+                if e[0] in ("ref", "deref"):
+                    e = e[1]
+                elif e[0] == "call" and e[1].split("::")[-1] in ("iter", "deref", "as_slice", "into_iter") and len(e[2]) == 1:
+                    e = e[2][0]
+                else:
+                    break
+            return e
+
+        def is_comments_local(l):
+            """a slice local every definition of which is `&<..>.comments` (possibly through deref) or a constant empty slice"""
+            ds = wb.defs.get(l, [])
+            if not ds:
+                return False
+            seen_field = False
+            for bi_, k_ in ds:
+                d_ = web.call_expr(wb.blocks[bi_]["term"]) if k_ == "term" else web.rvalue(wb.blocks[bi_]["stmts"][k_]["rv"])
+                x_ = coll_base(d_)
+                while x_[0] == "cast":
+                    x_ = coll_base(x_[2])
+                if x_[0] == "field" and x_[2] == "comments":
+                    seen_field = True
+                elif x_[0] in ("def", "const", "static", "repeat") or (x_[0] == "agg" and not x_[2]):
+                    pass            # `&[]`
+                else:
+                    return False
+            return seen_field
+
         def has_call(e):
             if not isinstance(e, tuple):
                 return False
@@ -214,7 +246,7 @@ def run(chk):
                 return True
             return any(has_call(x) if isinstance(x, tuple) else any(has_call(y) for y in x) if isinstance(x, list) else False for x in e[1:])
         for bi, t in wb.calls():
-            if (t["callee"].get("resolved") or "").endswith("IntoIterator>::into_iter") and t["args"]:
+            if "IntoIterator" in (t["callee"].get("resolved") or "") and (t["callee"].get("resolved") or "").endswith("::into_iter") and t["args"]:
                 a = web.operand(t["args"][0])
                 txt = show(a)
                 # the collection itself (`&data.comments`): no filter / skip / take adaptor between it and the loop;
@@ -222,7 +254,11 @@ def run(chk):
                 m_it = re.fullmatch(r"iter\((?:&\*deref\()?(&.*\.comments)\)?\)", txt)
                 if m_it:
                     txt = m_it.group(1)          # `data.comments.iter()` is the same traversal as `&data.comments`
-                if txt.endswith(".comments") and txt.startswith("&") and not any(w in txt for w in ("filter", "skip", "take", "step_by", "chain", "rev(")):
+                base = coll_base(a)
+                if base is not None and base[0] == "var" and is_comments_local(base[1]):
+                    coll_local[0] = base[1]
+                    it_ok = all((tt["callee"].get("resolved") or "").startswith("<std::slice::Iter<") for tt in nxt)
+                elif txt.endswith(".comments") and txt.startswith("&") and not any(w in txt for w in ("filter", "skip", "take", "step_by", "chain", "rev(")):
                     # and the loop's `next` is slice::Iter::next (not an adaptor's)
                     it_ok = all((tt["callee"].get("resolved") or "").startswith("<std::slice::Iter<") for tt in nxt)
         chk.obligation(bool(nxt) and it_ok)
@@ -282,10 +318,27 @@ def run(chk):
     # the count byte = comments.len()
     # the count byte: the u8 local that receives `comments.len() as u8`
     cl = []
+    the_coll = coll_local[0] if writer_loop else None
+
+    def is_count(e):
+        """`<comments>.len() as u8`, of the collection the loop walks"""
+        if e[0] != "cast" or e[1] != "u8" or e[2][0] != "len":
+            return False
+        x = e[2][1]
+        for _ in range(8):
+            if x[0] in ("ref", "deref"):
+                x = x[1]
+            elif x[0] == "call" and x[1].split("::")[-1] in ("deref", "as_slice") and len(x[2]) == 1:
+                x = x[2][0]
+            else:
+                break
+        if the_coll is not None:
+            return x[0] == "var" and x[1] == the_coll
+        return x[0] == "field" and x[2] == "comments"
     for bi, k, s_ in wb.stmts():
         if s_["k"] == "assign" and not s_["p"].get("p"):
             v = show(web.rvalue(s_["rv"]))
-            if v.startswith("(len(&") and v.endswith(".comments) as u8)") and s_["p"]["l"] not in cl:
+            if is_count(web.rvalue(s_["rv"])) and s_["p"]["l"] not in cl and wb.lname(s_["p"]["l"]):
                 cl.append(s_["p"]["l"])
     okc = False
     if len(cl) == 1:
@@ -301,11 +354,12 @@ def run(chk):
             for _, t in wb.calls():
                 if (t["callee"].get("resolved") or "").endswith("Vec::<T, A>::push") and on_vec(t["args"][0]):
                     e = web.operand(t["args"][1])
-                    if e[0] == "var" and e[1] == cl[0]:
+                    if (e[0] == "var" and e[1] == cl[0]) or is_count(e):
                         pushed = True
         if not pushed:
             vals.append("<not pushed>")
-        okc = len(vals) == 2 and "0" in vals and any(v.startswith("(len(&") and v.endswith(".comments) as u8)") for v in vals)
+        lens = [v for v in vals if v.startswith("(len(") and v.endswith(" as u8)")]
+        okc = bool(lens) and all(v == "0" or v in lens for v in vals) and len(set(lens)) == 1
         chk.sample("comment count byte: %s" % vals)
     chk.obligation(okc)
     if not okc:
@@ -328,6 +382,7 @@ def run(chk):
     got = set()
     if chk.anchor(hdr is not None, "R-SAUCE-AFFINE", "SauceData { sauce_header_len: .. } aggregate found in extract"):
         # hdr = len(data) - offset ; offset = len - 1 ; len has two definitions
+        hdr = see_through_try(f, hdr)
         a = affine(hdr)
         chk.sample("sauce_header_len = %s" % show(hdr))
         # substitute multi-def locals one level: find `var` atoms that are locals with several defs
@@ -351,7 +406,7 @@ def run(chk):
                         continue
                     done = False
                     for bi, k in defs:
-                        e = reb.rvalue(rb.blocks[bi]["stmts"][k]["rv"])
+                        e = see_through_try(f, reb.rvalue(rb.blocks[bi]["stmts"][k]["rv"]))
                         sub = affine(e)
                         if sub is None:
                             continue
